@@ -173,6 +173,24 @@ var specs = map[string]*CheckSpec{
 		Stub:   append([]string{"atp server -> scripted server (reactive transcript, canonical CBOR)"}, commonStub...),
 		Assume: []string{"premise: the server stream ends, errors or garbles; runs in which only the client's writes failed while the server stream stayed intact are excluded and counted", "a success result is legitimate iff a well-formed work-done for that run ID is present in the bytes actually delivered, as decided by the reference decoder"},
 	},
+	"C12": {
+		ID: "C12", Flavour: "atp", Level: "exploration",
+		Quick:    []Batch{{Name: "c12.history", Count: 40000}},
+		Thorough: []Batch{{Name: "c12.history", Count: 3000000}},
+		Rule:     "each run = one generated scope schema and a tape-drawn history of 1-30 operations (Unserialize, Validate, Serialize, ValidateCompatibility with data and with identical / single-feature-mutated schemas; valid and corrupted arguments; results of earlier calls fed back) on ONE instance; every operation is evaluated under the natural, two drawn, the reversed and a rotated iteration order of every map the SDK ranges over (map-order seam on all range-over-map and MapKeys sites), its argument is deep-compared before/after, and its verdict/result and the schema's self-description are compared with a freshly built instance; distinct = distinct (schema recipe, history); non-trivial = at least one map iteration was reordered",
+		Real:     []string{"schema package (all type kinds reachable from generated scopes)"},
+		Stub:     []string{"runtime map iteration order -> zzsimrt.MapOrder / OrderKeys seam (single goroutine, no scheduler)"},
+		Assume:   []string{"error text is not compared, only accept/reject and accepted results", "mutating returned values is not part of the statement and is not done"},
+	},
+	"C15": {
+		ID: "C15", Flavour: "atp", Level: "exploration",
+		Quick:    []Batch{{Name: "c15.pairs", Count: 40000}},
+		Thorough: []Batch{{Name: "c15.pairs", Count: 3000000}},
+		Rule:     "each run = one generated non-recursive consumer schema and 6-10 producer schemas (itself, rebuilt from the recipe, rebuilt from its own description, single-feature mutations - kind change, undeclared property, missing required property, enum value outside, disjoint range, tightened bound, removed optional property, different enforced object ID - and an unrelated schema); consumer.ValidateCompatibility(producer) is evaluated under the natural, two drawn, the reversed and two rotated map iteration orders; distinct = distinct (recipe, producer set); non-trivial = at least one map iteration was reordered",
+		Real:     []string{"schema package ValidateCompatibility of every type kind reachable from generated scopes"},
+		Stub:     []string{"runtime map iteration order -> zzsimrt.MapOrder / OrderKeys seam (single goroutine, no scheduler)"},
+		Assume:   []string{"restricted claim: decided = the verdict does not depend on map iteration order; reflexivity, rebuilt-compatibility and the must-reject rules are evaluated on the same pairs as side oracles (must-reject only for mutations of the root object); termination on recursive schemas is not decided (recursive recipes are excluded)"},
+	},
 	"C11": {
 		ID: "C11", Flavour: "atp", Level: "exploration",
 		Quick: []Batch{
